@@ -25,6 +25,8 @@ func init() { core.RegisterJudge("C07", "history", judgeC07) }
 type c07Prog struct {
 	Src string `json:"src"`
 	Opt bool   `json:"opt"`
+	// Dir: result directive ("int64", "float64"); used by C08 only
+	Dir string `json:"dir,omitempty"`
 }
 
 type c07History struct {
